@@ -105,6 +105,27 @@ def _explore(out, tier, seed, facts, replay):
                                   {"dataset": ds, "metric": name, "axis": ax.name(), "slice": ai})
         if len(samples) < 2:
             samples.append({"n_inputs": ninp, "marked_input": j})
+    # (2b) missing ensemble members never count as a number in probabilities derived from the ensemble
+    import verif.data
+    import verif.field
+    for _ in range(30 if tier == "quick" else 300):
+        nm = rng.randint(1, 6)
+        members = [None if rng.random() < 0.3 else rng.choice([0.0, 1.0, 2.0, 3.5, 5.0]) for _ in range(nm)]
+        t = rng.choice([0.0, 1.0, 2.0, 4.0])
+        spec = {"times": [0], "leads": [0.0], "locs": [[1, 0.0, 0.0, 0.0]], "fields": {"obs": [[[1.0]]], "fcst": [[[1.0]]]}}
+        inp = datagen.mem_input(spec, "ens")
+        inp.ensemble = np.array([[[[float("nan") if m is None else m for m in members]]]], float)
+        nf += 1
+        try:
+            pt = float(verif.data.Data([inp]).get_scores(verif.field.Threshold(t), 0, verif.axis.All())[0, 0, 0])
+        except Exception as e:
+            out.violation("ensemble-exception", "probability from ensemble %r raised %r" % (members, e), {"members": members, "threshold": t})
+            continue
+        present = [m for m in members if m is not None]
+        want = float("nan") if not present else sum(1 for m in present if m <= t) / float(len(present))
+        if not common.close(pt, want, 1e-6):
+            out.violation("missing-member-counted", "P(X<=%r) from members %r (None = missing) is %r; with the missing members deleted it is %r"
+                          % (t, members, pt, want), {"members": members, "threshold": t})
     # (3) encodings: text tokens and NetCDF cells
     tmp = tempfile.mkdtemp(prefix="vfc04_")
     try:
